@@ -1,4 +1,5 @@
 from rules import shared as S
+from rules import late as L
 
 DOC = {'explanation': 'C14 structural clauses (see DESIGN.md section 5)', 'decided': [], 'not_decided': []}
 
@@ -16,3 +17,4 @@ def rules(ctx):
     S.after_bound_rules(ctx)
     S.survey2_rules(ctx)
     S.survey3_rules(ctx)
+    L.round7_rules(ctx)
